@@ -365,7 +365,7 @@ def main(argv=None):
                       % (v['sig'], prop, json.dumps(jsonable(v['case']))[:500]))
                 status = 2
                 continue
-        rdir = os.path.join(VERIF, 'replays', prop)
+        rdir = os.path.join(os.environ.get('VERIF_REPLAY_DIR') or os.path.join(VERIF, 'replays'), prop)
         os.makedirs(rdir, exist_ok=True)
         blob = {'property_id': prop, 'sig': v['sig'], 'case': jsonable(v['case']), 'msg': v['msg'],
                 'pydl_commit': tree_commit()}
